@@ -19,9 +19,17 @@ for d in sorted(glob.glob(os.path.join(V, "seeded", "*"))):
     desc = (m.get("title") or "")[:140] + " — needs: " + (m.get("needs") or "")[:200]
     rows.append("| %s | %s | %s | %s | %s |" % (os.path.basename(d), m.get("property"), desc.replace("|", "\\|").replace("\n", " "), caught, (m.get("strengthened") or m.get("note") or "").replace("|", "\\|")))
 seeded = "\n".join(rows)
+rows = ["| id | level | packages driven (quick tier) | monitors: cases / distinct | total cases / distinct / wall |", "|---|---|---|---|---|"]
+for ev in sorted(glob.glob(os.path.join(V, "evidence", "C*.json"))):
+    e = json.load(open(ev))
+    cov = e.get("coverage", {})
+    pkgs = sorted({r["pkg"].replace("internal/", "") for r in cov.get("go_test_runs", [])})
+    mons = ", ".join("%s %s/%s" % (k, v.get("evaluations"), v.get("distinct_nontrivial")) for k, v in sorted(cov.get("monitors", {}).items()))
+    rows.append("| %s | %s | %s | %s | %s / %s / %.0f s (%s tier, seed %s) |" % (e["property_id"], e.get("level"), ", ".join(pkgs), mons, cov.get("evaluations"), cov.get("distinct_nontrivial"), e.get("wall_s", 0), e.get("tier"), e.get("seed")))
+asbuilt = "\n".join(rows)
 p = os.path.join(V, "DESIGN.md")
 s = open(p).read()
-for name, body in (("findings", findings), ("seeded", seeded)):
+for name, body in (("findings", findings), ("seeded", seeded), ("asbuilt", asbuilt)):
     b, e = "<!-- BEGIN:%s -->" % name, "<!-- END:%s -->" % name
     if b in s:
         s = s[:s.index(b) + len(b)] + "\n" + body + "\n" + s[s.index(e):]
